@@ -592,6 +592,7 @@ def json_to_region_metadata(json_doc: dict):
 def json_to_pagexml_word(json_doc: dict) -> pdm.PageXMLWord:
     word = pdm.PageXMLWord(doc_id=json_doc['id'], doc_type=json_doc['type'],
                            metadata=json_doc['metadata'], text=json_doc['text'],
+                           coords=json_to_coords(json_doc),
                            conf=json_doc['conf'] if 'conf' in json_doc else None)
     return word
 
@@ -604,7 +605,8 @@ def json_to_pagexml_line(json_doc: dict) -> pdm.PageXMLTextLine:
                                    coords=json_to_coords(json_doc), baseline=pdm.Baseline(json_doc['baseline']) if 'baseline' in json_doc else None,
                                    text=json_doc['text'], conf=json_doc['conf'] if 'conf' in json_doc else None,
                                    words=words, reading_order=reading_order,
-                                   reading_order_attributes=reading_order_attributes)
+                                   reading_order_attributes=reading_order_attributes,
+                                   xheight=get_json_element(json_doc, 'xheight'))
         return line
     except TypeError:
         print(get_json_element(json_doc, 'baseline'))
@@ -619,6 +621,7 @@ def json_to_pagexml_text_region(json_doc: dict) -> pdm.PageXMLTextRegion:
 
     text_region = pdm.PageXMLTextRegion(doc_id=json_doc['id'], doc_type=json_doc['type'], metadata=json_doc['metadata'],
                                         coords=json_to_coords(json_doc), text_regions=text_regions, lines=lines,
+                                        text=get_json_element(json_doc, 'text'),
                                         orientation=orientation, reading_order=reading_order,
                                         reading_order_attributes=reading_order_attributes)
     pdm.set_parentage(text_region)
@@ -634,6 +637,7 @@ def json_to_pagexml_table_cell(json_doc: dict) -> pdm.PageXMLTableCell:
     table_cell = pdm.PageXMLTableCell(doc_id=json_doc['id'], doc_type=json_doc['type'],
                                       metadata=json_doc['metadata'], coords=json_to_coords(json_doc),
                                       lines=lines, orientation=orientation, cornerpoints=cornerpoints,
+                                      row=get_json_element(json_doc, 'row'),
                                       col=json_doc['col'], cell_span=json_doc['cell_span'],
                                       row_span=json_doc['row_span'])
     pdm.set_parentage(table_cell)
